@@ -939,11 +939,26 @@ impl AstNode for UtxoRef {
     fn parse(pair: Pair<Rule>) -> Result<Self, Error> {
         let span = pair.as_span().into();
         let raw_ref = pair.as_span().as_str()[2..].to_string();
-        let (raw_txid, raw_output_ix) = raw_ref.split_once("#").expect("Invalid utxo ref");
+
+        let invalid = |message: &str| -> Error {
+            pest::error::Error::<Rule>::new_from_span(
+                pest::error::ErrorVariant::CustomError {
+                    message: message.to_string(),
+                },
+                pair.as_span(),
+            )
+            .into()
+        };
+
+        let (raw_txid, raw_output_ix) = raw_ref
+            .split_once("#")
+            .ok_or_else(|| invalid("invalid utxo ref"))?;
 
         Ok(UtxoRef {
-            txid: hex::decode(raw_txid).expect("Invalid hex txid"),
-            index: raw_output_ix.parse().expect("Invalid output index"),
+            txid: hex::decode(raw_txid).map_err(|_| invalid("invalid hex txid in utxo ref"))?,
+            index: raw_output_ix
+                .parse()
+                .map_err(|_| invalid("invalid output index in utxo ref"))?,
             span,
         })
     }
